@@ -84,4 +84,26 @@ theorem flush_consts_eq : flushTest = (0x0004, 0x0D) ∧
     flushHeader = [5, 4, 3, 2, 1] := by decide
 theorem layout_consts_eq : eiFirst = 0x30 ∧ eiLater = 0x0D ∧ ejMax = 0xFFF8 ∧ bufSize = 0x10000 := by decide
 
+/-- The text (comment-free, as printed by go/printer) of every top-level declaration of uncompng.go is
+the text this model was written from and reviewed against.  `init`, the pixel-loop table and the
+constants above are tied semantically; for `Encode`'s control flow, `flush`, `updateAdler32` and
+`crc32IEEE` the hand translation is tied to THIS source text (and to the code's behaviour by the
+differential harness).  Any edit of the file — a harmless refactoring included — breaks this theorem:
+the model must then be re-reviewed and the digests updated. -/
+theorem source_text_reviewed : srcDigests = [
+  ("const ColorTypeGray", "3f6745f7172e7abf6b406c20ed6e1f31352084c2c0214bc314ea01d824b7432b"),
+  ("const Depth8", "c1a78d1bcf3152669cb6463f25b7c7648c15b9fda1c6c02cdee4edf576389479"),
+  ("const eiFirst", "8d03c2b7ca990fc99669f78d0b25811c336580b27d1d6467026632a347232b7c"),
+  ("func Encode", "f5a55cf1cafcd95e276fe36b22f7f594b31e73bad09ab8f136de8fdb0fb46bdb"),
+  ("func btou8", "fe5a51d1e805a1d9784773cf3e26010d909d97d1c568d1007754376070c7bdbd"),
+  ("func crc32IEEE", "a0ff509fa3b0faf3b89ff786fa6362df8ca9f9c8517fc569ddee6d2be9545dae"),
+  ("func flush", "d03bf5abcb88e74c0c4dc159c98f3fd7f3c6af5735b5b41f92dfaa984e98930b"),
+  ("func init", "10c213c40236424b31e9a964066e693dcaafa45b74427f803d8f25efe20987df"),
+  ("func pngFileFormatEncoding", "5737b4bbf6a35d4b0e70040d29be7c6b0c28b8eee92bc2f548fc6039e3d51ee6"),
+  ("func updateAdler32", "de2ee5012d258582ae2e57e170be8c885490343decbbc2c88b09c44f343873a1"),
+  ("type ColorType", "7316a1c717ab8acd853c581adcc3ff2c9ad93f2bb31cd83ca20510984153aefb"),
+  ("type Depth", "c7448255f6535a9f1c66e253a0b841d4d684b39caa714fd78a3e3216ae565bcf"),
+  ("type Encoder", "0daa83ffd6d7208dcac1a2ae57fab207ef0f6b4a8648677b0d24191095f43b97"),
+  ("var crc32IEEETable", "303ad26ef392df58814fc6afd33f4c4768b307ed75a2f078be07bc913b0942ae")] := by decide
+
 end WuffsVerif.Png.Uncomp
